@@ -33,6 +33,7 @@ type Program struct {
 	globInfo  map[*ssa.Global]*globalInfo
 	fset      *token.FileSet
 	assumed   []string
+	missing   []*Obligation
 	funcValues []*ssa.Function
 	recSpec   map[string]bool
 	curCaller string
